@@ -6,8 +6,9 @@
 (* Chunk == [k     : "end" | "unc" | "lzma" | "bad"      (control 0x00 | 0x01,0x02 | >= 0x80 | 0x03..0x7F)  *)
 (*           reset : unc: "dict" | "none";  lzma: "none" | "state" | "props" | "all"  (0x80 0xA0 0xC0 0xE0)  *)
 (*           props : "ok" | "bad"     lc/lp/pb byte (present iff reset in {"props","all"})                 *)
-(*           pl    : "ok" | "err" | "short" | "long"   verdict of the LZMA payload against the chunk's     *)
-(*                    sizes: decodes exactly / data error / needs fewer / needs more than Compressed Size   *)
+(*           pl    : "ok" | "err" | "short" | "long" | "rcend"   verdict of the LZMA payload against the    *)
+(*                    chunk's sizes: decodes exactly / data error / needs fewer / needs more than           *)
+(*                    Compressed Size / decodes exactly but the range coder does not end with code = 0      *)
 (*           n, c  : uncompressed bytes produced, bytes of the chunk in the file (header included)]         *)
 EXTENDS Naturals, Sequences, FiniteSets
 
@@ -47,6 +48,7 @@ L2Body(st, ch) ==
     ELSE CASE ch.pl = "ok"    -> [st EXCEPT !.out = Append(st.out, ch.id), !.used = st.used + ch.c]
            [] ch.pl = "err"   -> L2Fail(st, "DATA_ERROR")
            [] ch.pl = "short" -> L2Fail(st, "DATA_ERROR")     \* "if (coder->compressed_size != 0) return LZMA_DATA_ERROR"
+           [] ch.pl = "rcend" -> L2Fail(st, "DATA_ERROR")     \* lzma_decoder.c: "if (rc_is_finished(rc)) ... else if (!coder->allow_eopm) LZMA_DATA_ERROR"
            [] OTHER           -> L2Fail(st, "DATA_OR_BUF")    \* "if (in_used > coder->compressed_size)" - needs bytes after the chunk
 L2Step(st, ch) == L2Body(L2Control(st, ch), ch)
 
